@@ -181,6 +181,11 @@ def check(run):
             perm_case(run, specs, pm, "eri_chemist", None)
             perm_case(run, specs, pm, "eri_physicist", None)
         eightfold_case(run, specs)
+    cs = []
+    sgen = [rand_shell(rng, 0, cs, nprim=2, nseg=2 + i % 2, sph=False, exp_lo=0.1, exp_hi=10.0) for i in range(3)]
+    for pm in [(1, 0, 2), (2, 1, 0), (1, 2, 0)]:
+        perm_case(run, sgen, pm, "eri_chemist", None)
+    eightfold_case(run, sgen)
     for la, lb in ([(0, 1), (2, 1), (3, 0), (2, 4)] if quick else itertools.product(range(5), repeat=2)):
         sa, sb = pair_specs(rng, la, lb)
         block_orientation_case(run, sa.copy(sph=False), sb.copy(sph=False))
